@@ -1,0 +1,23 @@
+//go:build verif
+
+package ipfslog
+
+import "berty.tech/go-ipfs-log/iface"
+
+// VerifHook, when set, is called at every scheduling point named in log.go
+// (lock acquisitions and releases, and a few points inside critical sections).
+// It exists for the verification harness only (build tag "verif").
+var VerifHook func(point string, l *IPFSLog)
+
+func verifPoint(point string, l *IPFSLog) {
+	if h := VerifHook; h != nil {
+		h(point, l)
+	}
+}
+
+// VerifState returns the live entry index and head map without locking and
+// without hitting any scheduling point. Observers of the harness must use it
+// instead of the hooked accessors.
+func (l *IPFSLog) VerifState() (entries iface.IPFSLogOrderedEntries, heads iface.IPFSLogOrderedEntries) {
+	return l.Entries, l.heads
+}
